@@ -22,6 +22,12 @@ func main() {
 	switch *fam {
 	case "c02":
 		famC02(g, o, *n, *thorough)
+	case "c01":
+		famC01(g, o, *n, *thorough)
+	case "c05":
+		famC05(g, o, *n, *thorough)
+	case "c04":
+		famC04(g, o, *n, *thorough)
 	case "c03":
 		famC03(g, o, *n, *thorough)
 	default:
